@@ -79,6 +79,9 @@ void run_readers(Ctx &c, Seq seq, size_t nops, const char *what) {
     c.count(pinned ? "rounds_on_2_cores" : "rounds_on_all_cores");
     c.maxc("max_simultaneously_active_readers", st.max_active.load());
     c.nontrivial = st.max_active.load() >= 2;
+    if (c.want_sample())
+        c.sample(J().str("object", what).num("threads", threads).num("ops_per_thread", nops).boolean("pinned_to_2_cores", pinned)
+                     .num("max_simultaneously_active", st.max_active.load()).num("digest_thread0", alone_before[0]).num("tsan_reports", reports));
 }
 
 inline void jitter(Rng &r, bool concurrent) {
